@@ -76,6 +76,8 @@ type ConcScenario struct {
 	Plans     []TunnelPlan
 	Gw        GwCfg
 	NegIdle   bool
+	Segmented bool // client connections deliver one write per read
+	RoundRobin bool // default schedule advances the clients in lockstep (cyclic candidate order)
 	Deviation bool // bound deviations from the default schedule instead of preemptions (multi-tunnel scenarios)
 	MaxSteps  int
 	WithEnrich bool
@@ -343,8 +345,9 @@ func RunConc(sc ConcScenario, prefix []int, logOn bool) *ConcResult {
 		max = 5000
 	}
 	ws0, lg0 := gauge("rdpgw_websocket_connections"), gauge("rdpgw_legacy_connections")
-	x := vsched.Run(prefix, max, logOn, nil, func() {
+	x := vsched.Run(prefix, max, logOn, func(x *vsched.Exec) { x.RoundRobin = sc.RoundRobin }, func() {
 		w := NewWorld()
+		w.Segmented = sc.Segmented
 		res.World = w
 		cfg := sc.Gw
 		if cfg.Hosts == nil {
@@ -504,6 +507,12 @@ func (r *raceLog) drain() []RaceReport {
 			if !strings.Contains(stack, "vsched.threadMain") {
 				okBoth = false
 				break
+			}
+			// the network shim copies into / out of the caller's buffer on behalf of the
+			// code under test, exactly where the runtime annotates real socket reads and
+			// writes: such accesses belong to the gateway frame below them
+			if strings.HasPrefix(top, "verif/shim/vnet.") || strings.HasPrefix(top, "verif/shim/vsched.WriteRange") || strings.HasPrefix(top, "verif/shim/vsched.ReadRange") || strings.HasPrefix(top, "runtime.Race") {
+				top = gwFrame
 			}
 			if gwFrame == "" || strings.HasPrefix(top, "verif/") || strings.HasPrefix(top, "main.") {
 				okBoth = false
